@@ -190,6 +190,23 @@ CLAIMED["C09"] = dict(
          "Lin as stated is by construction (it calls Lin.add/sub/neg/scale/force) and is checked against the code on every run.",
 )
 
+CLAIMED["C12"] = dict(
+    text="Theorems about the total functions the executable model uses to decide the base (Link.decideBase, setLink, skipBytes) on top of "
+         "the affine arithmetic of C09: the default base is 0o1000; when the base cancels in the link expression (relocation fragment) "
+         "and the value fits 16 bits the base is that value, and evaluating the expression at any base - in particular at the base "
+         "itself - gives it back (fixpoint); a base with a non-zero coefficient of itself, or one that had to be known to evaluate its "
+         "own expression, is recursive-definition; a value outside 16 bits is value-out-of-bounds; the first .link wins and every later "
+         "one is a conflict (any number of them); '. = X' is accepted iff X is not lower and then emits exactly X - old zero bytes. Tie: "
+         "link expressions K + sum k_i (L_i - L_j) in six syntactic shapes with the labels anywhere in 1-3 files and the directive "
+         "anywhere, self-dependent and oversized variants, second .link, no .link, leading '. =', skips -64..64: the generator's own "
+         "expected base, and the whole-program model.",
+    design_ref="DESIGN.md §5 C12",
+    technique="Lean 4 theorems (case analysis, omega, induction over later .link statements) + generator-known expected base + whole-program model/implementation correspondence",
+    note=NOTE + "The model keeps only the link base symbolic; the implementation also keeps the sizes of not-yet-computed chunks symbolic, so a "
+         "difference of labels with an address-dependent directive *before both* of them is solved by the code but not by the model "
+         "(DESIGN.md, model limitations); the generator of this check keeps such directives out of link programs.",
+)
+
 PENDING_REASON = "check not built yet (build in progress; see DESIGN.md §8 for the order)"
 
 
